@@ -55,7 +55,7 @@ fn start_conn(cx: &mut Ctx, token: Token, mode: u32, peer_stays: bool) -> Conn {
             Rec::new(s, 1, Vec::new(), 0).encode(&mut wire);
         }
     }
-    let knobs = Knobs { read_style: cx.ch.pick(4), write_style: cx.ch.pick(4), read_pending: cx.ch.one_of(&[0u32, 4, 8]), write_pending: cx.ch.one_of(&[0u32, 6, 12]), deliver_style: cx.ch.pick(3), spurious_polls: 0, fresh_wakers: cx.ch.chance(1, 2) };
+    let knobs = Knobs { read_style: cx.ch.pick(4), write_style: cx.ch.pick(4), read_pending: cx.ch.one_of(&[0u32, 4, 8]), write_pending: cx.ch.one_of(&[0u32, 6, 12]), deliver_style: cx.ch.pick(3), spurious_polls: 0, fresh_wakers: cx.ch.chance(1, 2), vectored_first_only: cx.ch.chance(1, 4) };
     // the connection's own choice stream is seeded from the history's chooser (one draw), so the whole run stays a function of the choice list
     let sub_seed = (u64::from(cx.ch.pick(1 << 30)) << 16) ^ 0xC13;
     let mut sub = Ctx::new(Chooser::record(sub_seed), false);
@@ -81,7 +81,7 @@ pub const C13_FAULTS: &[&str] = &["connection_future_dropped", "token_dropped_un
 pub const C13_PROBES: &[&str] = &[
     "two_pending_two_releases_between_polls", "fresh_request_barged", "limit_reached", "request_ready_first_poll",
     "request_woken_then_ready", "clone_used", "run_to_completion", "shutdown_future_polled", "shutdown_ready_after_last_token",
-    "clone_shutdown_independent", "connection_task_interleaved", "connection_task_finished", "huge_buffer_size_config",
+    "clone_shutdown_independent", "connection_task_interleaved", "connection_task_finished", "huge_buffer_size_config", "request_repolled_with_new_waker",
 ];
 
 fn run_token(cx: &mut Ctx, token: Token, mode: u32, bufsize: usize, runner_shut: bool) -> Result<(), Violation> {
@@ -92,7 +92,7 @@ fn run_token(cx: &mut Ctx, token: Token, mode: u32, bufsize: usize, runner_shut:
         Rec::new(PARAMS, 1, Vec::new(), 0).encode(&mut wire);
         Rec::new(STDIN, 1, Vec::new(), 0).encode(&mut wire);
     }
-    let knobs = Knobs { read_style: cx.ch.pick(4), write_style: cx.ch.pick(4), read_pending: cx.ch.one_of(&[0u32, 4]), write_pending: cx.ch.one_of(&[0u32, 4]), deliver_style: cx.ch.pick(3), spurious_polls: 0, fresh_wakers: cx.ch.chance(1, 2) };
+    let knobs = Knobs { read_style: cx.ch.pick(4), write_style: cx.ch.pick(4), read_pending: cx.ch.one_of(&[0u32, 4]), write_pending: cx.ch.one_of(&[0u32, 4]), deliver_style: cx.ch.pick(3), spurious_polls: 0, fresh_wakers: cx.ch.chance(1, 2), vectored_first_only: cx.ch.chance(1, 4) };
     let inner = std::mem::replace(cx, Ctx::new(Chooser::replay(Vec::new()), false));
     let segs = vec![Seg { end: wire.len(), gate: Gate::Open }];
     let world = World::new(inner, knobs, wire, segs);
@@ -158,6 +158,9 @@ pub fn c13(cx: &mut Ctx) -> VResult {
     let mut next_id = 0usize;
     let mut releases_since_poll = 0usize;
     let steps = cx.ch.range(6, 70);
+    // in half of the histories every poll of a get_token future hands it a Waker of its own; only the one from the
+    // most recent poll counts as "the request was woken" (the Future::poll contract)
+    let fresh_wakers = cx.ch.chance(1, 2);
     let mut history: Vec<String> = Vec::new();
     cx.nontrivial = true;
     for _step in 0..steps {
@@ -200,6 +203,11 @@ pub fn c13(cx: &mut Ctx) -> VResult {
                 let p = &mut pend[i];
                 let was_polled = p.polled;
                 let was_woken = p.polled && p.flag.wakes() > p.wakes_at_pending;
+                if fresh_wakers && p.polled {
+                    p.flag = WakeFlag::new(false);
+                    p.wakes_at_pending = 0;
+                    cx.probe("request_repolled_with_new_waker");
+                }
                 let waker = Waker::from(p.flag.clone());
                 let mut c = Context::from_waker(&waker);
                 let wakes_before = p.flag.wakes();
